@@ -53,7 +53,7 @@ def merge_results(parts):
         if p.get("error"):
             return p
     res = dict(parts[0])
-    for k in ("paths", "forks", "instrs", "queries", "queries_sat", "queries_unsat", "queries_unknown", "solver_ms", "terms"):
+    for k in ("paths", "forks", "instrs", "queries", "queries_sat", "queries_unsat", "queries_unknown", "solver_ms", "terms", "shapes"):
         res[k] = sum(p.get(k) or 0 for p in parts)
     res["wall_ms"] = max(p.get("wall_ms") or 0 for p in parts)
     for k in ("paths_ended", "paths_cut", "functions"):
@@ -345,6 +345,8 @@ def _check(pid, tier, seed, entries, tmp, t0, level, extra_assumptions):
                                                for o in r.get("obligations") or []]) for r in results],
                   functions_encoded=dict(sorted(funcs.items(), key=lambda kv: -kv[1])[:60]),
                   obligations=n_obl, discharged=n_unsat,
+                  programs=sum(r.get("shapes", 0) or 0 for r in results),
+                  disagreements_checked=len(violations) + len(knowns) + len(unconfirmed),
                   queries=sum(r.get("queries", 0) for r in results),
                   solver_s=round(sum(r.get("solver_ms", 0) for r in results) / 1000, 3),
                   known_findings=[dict(harness=r["harness"], what=o.get("known"), obligation=o["id"], model=o.get("model")) for r, o, rr in knowns],
